@@ -67,3 +67,8 @@ package common
 
 // The event discipline is closed over the whole repository (see /verif/gvc/events.go).
 //@ check events-closed props C08,C09,C10,C20
+
+//@ extern strings.SplitN
+//@ ensures fresh(result) && implies(sep != "" && n != 0, len(result) >= 1)
+//@ extern strings.Fields
+//@ ensures fresh(result)
